@@ -51,7 +51,7 @@ where
         let gp = GenParams {
             log_n: 3 + (shape % 4) as u32,
             max_width: *rng.pick(&[1usize, 3, 6]),
-            max_degree: *rng.pick(&[1usize, 2, 3]),
+            max_degree: if shape % 5 == 4 { 6 } else { *rng.pick(&[1usize, 2, 3]) },
             periodic: shape % 3 == 0,
             aux: shape % 2 == 1,
             exemptions: 1 + (shape % 3) as usize,
